@@ -78,6 +78,7 @@ type FCfg struct {
 	Script  string   `json:"script"`
 	Threads [][]GOp  `json:"threads"`
 	Faults  bool     `json:"faults,omitempty"`
+	BUnl    bool     `json:"bunl,omitempty"`    // the backend is configured with UnlimitedTTL (entries get their expiry from Failover's TTLs only)
 	BCount  int      `json:"bcount,omitempty"`  // FailoverConfig.BackendConfig.CountSoftLimit (the backend itself is always given explicitly)
 	Callout bool     `json:"callout,omitempty"` // scheduling points in stats/log call-outs
 	Follow  bool     `json:"follow,omitempty"`  // C04 follow-up phase
@@ -716,6 +717,9 @@ func newFH(cfg FCfg) *fh {
 	}
 
 	bcfg := cache.Config{Name: "c", TimeToLive: backendTTL, ExpirationJitter: -1}
+	if cfg.BUnl {
+		bcfg.TimeToLive = cache.UnlimitedTTL
+	}
 
 	var (
 		st cache.StatsTracker
@@ -919,6 +923,15 @@ func (h *fh) builder(k int) func(ctx context.Context) (Tok, error) {
 			return Tok{}, expiredLikeErr{TokErr: te, v: foreign}
 		}
 
+		// 'c': the builder fails with a timeout of its own (an error that matches context.DeadlineExceeded although every
+		// caller's context is alive): a failure like any other
+		if out == 'c' {
+			te := &TokErr{K: h.names[k], N: n}
+			h.ev(FEv{Kind: "build-end", Key: k, N: n, Err: te, Nil: true, Ctx: ctxObs{Err: ctx.Err()}})
+
+			return Tok{}, timeoutTokErr{te}
+		}
+
 		if out == 'f' || out == 'p' {
 			err := &TokErr{K: h.names[k], N: n}
 			h.ev(FEv{Kind: "build-end", Key: k, N: n, Err: err, Nil: true, Ctx: ctxObs{Err: ctx.Err()}})
@@ -960,6 +973,12 @@ var (
 	_ cache.ErrWithExpiredItem        = expiredLikeErr{}
 	_ cache.ErrWithExpiredItemOf[Tok] = expiredLikeErrOf{}
 )
+
+// timeoutTokErr is a builder error that matches context.DeadlineExceeded (the builder's own timeout).
+type timeoutTokErr struct{ *TokErr }
+
+func (e timeoutTokErr) Unwrap() error        { return e.TokErr }
+func (e timeoutTokErr) Is(target error) bool { return target == context.DeadlineExceeded }
 
 type cancelDurKey struct{}
 
